@@ -689,8 +689,10 @@ let judge_cli f =
     | Some b ->
       if exit_ <> 0 then F "exit status non-zero where every patch applies"
       else if stdout_ <> string_of_bytes b then
+        (* the property pins the bytes: exactly what the library's Apply produces (stdin verbatim
+           when there is no patch) *)
         (match den_s stdout_, den_s (string_of_bytes b) with
-         | Some x, Some y when oeqb x y -> D "bytes differ from the model, value equal"
+         | Some x, Some y when oeqb x y -> F "stdout is the right value but not the bytes the library produces"
          | _ -> F "stdout is not the document the library produces")
       else P
     | None ->
